@@ -402,3 +402,44 @@ Proof.
       cbn iota; intros A B; rewrite ?andb_false_r in A; rewrite ?andb_false_r in B; discriminate.
   - repeat split; vm_compute; reflexivity.
 Qed.
+
+(* ---- handler layouts ---- *)
+Lemma layout_kinds_pf : forall name res acc l q,
+  (c_has_res (cfg_layout name res acc l q) = true <-> exists h, In h l /\ h_res h = true) /\
+  (c_has_acc (cfg_layout name res acc l q) = true <-> exists h, In h l /\ h_acc h = true).
+Proof.
+  intros name res acc l q. cbn [cfg_layout c_has_res c_has_acc]. unfold layout_has_res, layout_has_acc.
+  split; apply existsb_exists.
+Qed.
+
+Lemma default_layout_pf : forall name l q,
+  owned_res (cfg_layout name None None l q) = (if existsb h_res l then default_ownership name else []) /\
+  owned_acc (cfg_layout name None None l q) = (if existsb h_acc l then default_ownership name else []) /\
+  reset_payload (cfg_layout name None None l q) =
+    reset_event (if existsb h_res l then default_ownership name else [])
+                (if existsb h_acc l then default_ownership name else []).
+Proof. intros name l q. repeat split. Qed.
+
+(* a service that keeps the default ownership: as soon as SOME registered handler - wherever it sits in
+   the mux tree - has a method of a kind, every request of that kind for the service name or anything
+   below it (anything at all for the empty name) reaches a subscription *)
+Lemma default_layout_coverage_pf : forall name l q r, name_ok name = true -> nats_concrete r = true ->
+  is_nil name || is_prefix (tokens name) (tokens r) = true ->
+  ((exists h, In h l /\ h_res h = true) ->
+     (exists sub, In sub (subscriptions (cfg_layout name None None l q)) /\ nats_match sub (subj_plain t_get r) = true) /\
+     (forall t m, t = t_call \/ t = t_auth -> method_ok m = true ->
+        exists sub, In sub (subscriptions (cfg_layout name None None l q)) /\ nats_match sub (subj_method t r m) = true)) /\
+  ((exists h, In h l /\ h_acc h = true) ->
+     exists sub, In sub (subscriptions (cfg_layout name None None l q)) /\ nats_match sub (subj_plain t_access r) = true).
+Proof.
+  intros name l q r N C P. set (c := cfg_layout name None None l q).
+  assert (OK : cfg_ok c = true) by (unfold cfg_ok; cbn; rewrite N; reflexivity).
+  rewrite <- (default_spec_pf name r N) in P. apply existsb_exists in P. destruct P as (p & Ip & Mp).
+  destruct (coverage_pf c OK) as [CR CA]. split.
+  - intros Hh. apply (CR p r); [|exact C|exact Mp].
+    destruct (default_layout_pf name l q) as (E & _ & _). fold c in E. rewrite E.
+    apply existsb_exists in Hh. rewrite Hh. exact Ip.
+  - intros Hh. apply (CA p r); [|exact C|exact Mp].
+    destruct (default_layout_pf name l q) as (_ & E & _). fold c in E. rewrite E.
+    apply existsb_exists in Hh. rewrite Hh. exact Ip.
+Qed.
